@@ -48,7 +48,7 @@ inline std::string to_str(float d) {
 template<int Prec>
 std::string to_str_prec(double d) {
   static_assert(Prec >= 0 && Prec < 7, "unsupported precision");
-  char buf[16];
+  char buf[20];  // "-100000000.000000" (from -99999999.9999999) has 17 characters
   int len = d > -1e8 && d < 1e8 ? sprintf_z(buf, "%.*f", Prec, d)
                                 : sprintf_z(buf, "%g", d);
   return std::string(buf, len > 0 ? len : 0);
